@@ -3,7 +3,7 @@
 claims are stated; edit here, run, commit."""
 import json, sys
 
-SETUP = "cd /verif && cp /repo/go.sum go.sum && GOFLAGS=-mod=mod GOPROXY=off GOSUMDB=off GOTOOLCHAIN=local go build -o bin/vcheck ./cmd/vcheck"
+SETUP = "cd /verif && GOFLAGS=-mod=mod GOPROXY=off GOSUMDB=off GOTOOLCHAIN=local go build -o bin/vcheck ./cmd/vcheck"
 
 def check(pid, engine, category, text, note, technique, design_ref):
     return {
